@@ -1555,4 +1555,62 @@ theorem pruneL_cut {K : Type} (z : K) (a : PruneArgs) (nseg : Nat) (st : PruneSt
 example : (∀ i < 1, PruneWf exPruneArgs exPruneSt.lsub.size exPruneSt.lusup.size exPruneSt.xprune.size (exPruneArgs.segrep.getD i 0) ∧
     exPruneArgs.segrep.getD i 0 + 1 < exPruneArgs.xlsub.size) ∧
     (∀ i < 5, ∀ j < 5, i ≤ j → exPruneArgs.xlsub.getD i 0 ≤ exPruneArgs.xlsub.getD j 0) := by decide
+
+def kfnzOf (a : UcolArgs) (krep : Nat) : Nat := (a.repfnz.getD krep EMPTY).toNat
+def fsupcOf (a : UcolArgs) (krep : Nat) : Nat := a.xsup.getD (a.supno.getD krep 0).toNat 0
+
+/-- what `copyToUcol` needs of the L structure and of the search (decidable): for every kept segment `kfnz..krep`,
+`kfnz` lies in the supernode of `krep`, the supernode's list starts with its own pivot rows in column order
+(`perm_r[lsub[xlsub[fsupc] + (c - fsupc)]] = c`: what `[sdcz]pivotL` maintains), and `krep` is a column before the
+supernode of `jcol` -/
+def UcolLead (a : UcolArgs) : Prop :=
+  ∀ ksub ∈ List.range a.nseg, ucolKeeps a (a.segrep.getD (a.nseg - 1 - ksub) 0) = true →
+    fsupcOf a (a.segrep.getD (a.nseg - 1 - ksub) 0) ≤ kfnzOf a (a.segrep.getD (a.nseg - 1 - ksub) 0) ∧
+    kfnzOf a (a.segrep.getD (a.nseg - 1 - ksub) 0) ≤ a.segrep.getD (a.nseg - 1 - ksub) 0 ∧
+    a.segrep.getD (a.nseg - 1 - ksub) 0 < a.xsup.getD (a.supno.getD a.jcol 0).toNat 0 ∧
+    ∀ c ∈ List.range' (kfnzOf a (a.segrep.getD (a.nseg - 1 - ksub) 0))
+        (a.segrep.getD (a.nseg - 1 - ksub) 0 + 1 - kfnzOf a (a.segrep.getD (a.nseg - 1 - ksub) 0)),
+      a.permR.getD (a.lsub.getD (a.xlsub.getD (fsupcOf a (a.segrep.getD (a.nseg - 1 - ksub) 0)) 0 +
+        (c - fsupcOf a (a.segrep.getD (a.nseg - 1 - ksub) 0))) 0) EMPTY = (c : Int)
+
+instance (a : UcolArgs) : Decidable (UcolLead a) := by unfold UcolLead; infer_instance
+
+/-- **the C03 clause "U holds only rows strictly above each column's supernode", at the array level**: under
+`UcolLead` every row index written to `usub` for column `jcol` is a column number `c` with
+`0 ≤ c < xsup[supno[jcol]]` -/
+theorem copyToUcol_above {K : Type} (z : K) (a : UcolArgs) (xusub : Array Nat) (usub : Array Int) (ucol dense : Array K)
+    (h : UcolWf a xusub usub.size ucol.size dense.size) (hl : UcolLead a) :
+    ∀ t, t < (ucolAllRows a).length →
+      0 ≤ (copyToUcol z a xusub usub ucol dense).1.usub.getD (xusub.getD a.jcol 0 + t) 0 ∧
+      (copyToUcol z a xusub usub ucol dense).1.usub.getD (xusub.getD a.jcol 0 + t) 0 < (a.xsup.getD (a.supno.getD a.jcol 0).toNat 0 : Int) := by
+  have hs := copyToUcol_spec z a xusub usub ucol dense h
+  obtain ⟨_, _, _, _, _, _, _, _, _, _, _, _, hb⟩ := hs
+  apply hb
+  intro r hr
+  unfold ucolAllRows at hr
+  rw [List.mem_flatMap] at hr
+  obtain ⟨ksub, hk, hr⟩ := hr
+  unfold ucolRows at hr
+  by_cases hkeep : ucolKeeps a (a.segrep.getD (a.nseg - 1 - ksub) 0) = true
+  · rw [if_pos hkeep] at hr
+    obtain ⟨g1, g0, g2, g3⟩ := hl ksub hk hkeep
+    simp only [segList, List.mem_map, List.mem_range] at hr
+    obtain ⟨t, ht, rfl⟩ := hr
+    have := g3 (kfnzOf a (a.segrep.getD (a.nseg - 1 - ksub) 0) + t) (by rw [List.mem_range'_1]; unfold kfnzOf at *; omega)
+    have e : a.xlsub.getD (fsupcOf a (a.segrep.getD (a.nseg - 1 - ksub) 0)) 0 +
+        (kfnzOf a (a.segrep.getD (a.nseg - 1 - ksub) 0) + t - fsupcOf a (a.segrep.getD (a.nseg - 1 - ksub) 0)) =
+        a.xlsub.getD (a.xsup.getD (a.supno.getD (a.segrep.getD (a.nseg - 1 - ksub) 0) 0).toNat 0) 0 +
+          (a.repfnz.getD (a.segrep.getD (a.nseg - 1 - ksub) 0) EMPTY).toNat -
+          a.xsup.getD (a.supno.getD (a.segrep.getD (a.nseg - 1 - ksub) 0) 0).toNat 0 + t := by
+      unfold kfnzOf fsupcOf at *; omega
+    rw [e] at this
+    rw [this]
+    unfold kfnzOf at *
+    constructor
+    · exact Int.natCast_nonneg _
+    · have : (a.repfnz.getD (a.segrep.getD (a.nseg - 1 - ksub) 0) EMPTY).toNat + t < a.xsup.getD (a.supno.getD a.jcol 0).toNat 0 := by omega
+      exact_mod_cast this
+  · rw [if_neg hkeep] at hr; simp at hr
+
+example : UcolLead exUcolArgs := by decide
 end Slu.SymbArr
